@@ -477,7 +477,7 @@ def run_paths(registry: Registry, c: Contract, label: str, setup: Callable, max_
                 allowed = [t for t in c.raises_ if I.is_subclass(exc.typ, t)]
                 if not allowed:
                     path.oblige(f'{label}.no_unexpected_exception', z3.BoolVal(False), exc.lineno,
-                                note=f'{exc.typ} raised at line {exc.lineno}')
+                                note=f'{exc.typ}{exc.args!r} raised at line {exc.lineno}')
                 else:
                     vals['result'] = None
                     for t in allowed:
@@ -606,7 +606,7 @@ def run_lemma(I: Interp, c: 'Lemma', spec: dict, label: str, path: Path) -> None
         allowed = [t for t in c.raises_ if I.is_subclass(exc.typ, t)]
         if not allowed:
             path.oblige(f'{label}.no_unexpected_exception', z3.BoolVal(False), exc.lineno,
-                        note=f'{exc.typ} raised at line {exc.lineno}')
+                        note=f'{exc.typ}{exc.args!r} raised at line {exc.lineno}')
             return
         path.cover(f'{label}.end_reachable', 0)
         allv = dict(I.ghost)
